@@ -1,5 +1,220 @@
 import Ecal.Drivers.Util
+import Ecal.Model.Mutex
+/-!
+Driver of C12. Input line: `<idx>\t<payload>\t<trace>` where
+
+* payload = `<mode> <threads> <iters> <seed> <role>|<role>…` (see go/cmd/harness/c12.go),
+* trace   = what the real run recorded: `e<tid><name>` (thread is inside a block of that name)
+  and `x<tid><kind><levels>` (thread is about to leave that many blocks by that kind of exit),
+  joined by `.`; `-` = empty.
+
+Output: the result the property demands for this program and thread configuration —
+`occ=… cnt=… done=n/n meet=…` (at most one thread inside per used name, every counter equal to
+the number of block entries, everybody finished, every rendezvous met) — computed from the
+payload alone, plus the verdict of replaying the recorded trace on the transition system
+`Ecal.Mutex.step`: every observed event is expanded into the model events the code performs
+for it and each of them must be enabled.
+
+  e t a        ↦ look t a, decide t, then (if the model thread now waits for the lock) lock t,
+                 setOwner t; then read t a, write t (the counter update that follows in the body)
+  x t k n      ↦ n times: bodyEnd t k, then (if the frame had acquired) resetOwner t, unlock t
+
+Attributes: `replay=ok` or `replay=<position>:<event>:<reason>`, `ev=<model events executed>`,
+`nt=1` if the run had real interaction: at some entry another thread was inside some block, or the
+lock of a name was handed over from one thread to another.
+-/
 namespace Ecal.Drv.C12
-/-- model driver of property C12 (stub: not implemented yet) -/
-def run (_args : List String) : IO Unit := Ecal.Drv.lineLoop fun _ => "unimplemented"
+open Ecal.Drv Ecal.Mutex
+
+abbrev Cnt := Nat × Nat × Nat
+
+def Cnt.add (c : Cnt) (name : Char) (m : Nat) : Cnt :=
+  if name = 'a' then (c.1 + m, c.2.1, c.2.2)
+  else if name = 'b' then (c.1, c.2.1 + m, c.2.2)
+  else (c.1, c.2.1, c.2.2 + m)
+
+def Cnt.plus (x y : Cnt) : Cnt := (x.1 + y.1, x.2.1 + y.2.1, x.2.2 + y.2.2)
+def Cnt.scale (k : Nat) (x : Cnt) : Cnt := (k * x.1, k * x.2.1, k * x.2.2)
+def Cnt.str (x : Cnt) : String := s!"{x.1},{x.2.1},{x.2.2}"
+
+/-- scan `block*`: per name the number of block entries of one run (a `continue` block that is the
+    top of its exit chain runs twice), and the number of rendezvous calls -/
+partial def scanBlocks (cs : List Char) (m : Nat) (acc : Cnt × Nat) : Option (List Char × (Cnt × Nat)) :=
+  match cs with
+  | [] => some ([], acc)
+  | ')' :: _ => some (cs, acc)
+  | n :: rest =>
+    let (meet, rest) := match rest with
+      | '!' :: r => (true, r)
+      | r => (false, r)
+    match rest with
+    | k :: rest =>
+      let (up, rest) := match rest with
+        | '^' :: r => (true, r)
+        | r => (false, r)
+      match rest with
+      | '(' :: rest =>
+        let m' := if !up && k = 'c' then 2 * m else m
+        let acc := (acc.1.add n m', if meet then acc.2 + m' else acc.2)
+        match scanBlocks rest m' acc with
+        | some (')' :: rest, acc) => scanBlocks rest m acc
+        | _ => none
+      | _ => none
+    | [] => none
+
+def roleCounts (r : String) : Option (Cnt × Nat) :=
+  match scanBlocks r.toList 1 ((0, 0, 0), 0) with
+  | some ([], acc) => some acc
+  | _ => none
+
+/-- roles executed: list of role indices, one per execution of a role function -/
+def executions (mode : String) (threads iters nroles : Nat) : List Nat × Nat :=
+  let nSink := if mode = "S" then threads else if mode = "D" then 0 else threads / 2
+  let nDirect := threads - nSink
+  let sinkEx := (List.range (nSink * iters)).map (· % nroles)
+  let directEx := (List.range nDirect).flatMap fun i => List.replicate iters ((nSink + i) % nroles)
+  (sinkEx ++ directEx, nSink * iters + nDirect)
+
+/-! ### trace -/
+
+inductive Obs where
+  | enter (t a : Nat)
+  | exit (t : Nat) (k : Outcome) (levels : Nat)
+
+def parseOutcome (c : Char) : Option Outcome :=
+  if c = 'n' then some .normal else if c = 'e' then some .error else if c = 'r' then some .ret
+  else if c = 'b' then some .brk else if c = 'c' then some .cont else none
+
+def parseObs (s : String) : Option Obs :=
+  match s.toList with
+  | 'e' :: rest =>
+    let ds := rest.takeWhile Char.isDigit
+    match rest.dropWhile Char.isDigit with
+    | [n] => if ds.isEmpty || n < 'a' || n > 'c' then none
+             else some (.enter (String.ofList ds).toNat! (n.toNat - 'a'.toNat))
+    | _ => none
+  | 'x' :: rest =>
+    let ds := rest.takeWhile Char.isDigit
+    match rest.dropWhile Char.isDigit with
+    | [k, l] =>
+      match parseOutcome k with
+      | some o => if ds.isEmpty || !l.isDigit then none
+                  else some (.exit (String.ofList ds).toNat! o (l.toNat - '0'.toNat))
+      | none => none
+    | _ => none
+  | _ => none
+
+def obsThread : Obs → Nat
+  | .enter t _ => t
+  | .exit t _ _ => t
+
+/-- re-tabulate the state (same values on the listed threads and names): keeps lookups cheap -/
+def compact (tids names : List Nat) (s : State) : State :=
+  let tv := tids.map fun t => (t, s.thr t)
+  let mv := names.map fun a => (a, s.mtx a)
+  { thr := fun x => (tv.lookup x).getD idle, mtx := fun a => (mv.lookup a).getD (init.mtx a) }
+
+def evStr : Event → String
+  | .look t a => s!"look({t},{a})" | .decide t => s!"decide({t})" | .lock t => s!"lock({t})"
+  | .setOwner t => s!"setOwner({t})" | .bodyEnd t _ => s!"bodyEnd({t})" | .resetOwner t => s!"resetOwner({t})"
+  | .unlock t => s!"unlock({t})" | .read t a => s!"read({t},{a})" | .write t => s!"write({t})"
+
+/-- run model events; error names the first one that is not enabled -/
+def runAll (s : State) (es : List Event) : Except String State :=
+  es.foldlM (fun s e => match step s e with
+    | some s' => .ok s'
+    | none => .error (evStr e ++ "-not-enabled")) s
+
+def exitOnce (s : State) (t : Nat) (k : Outcome) : Except String (State × Nat) := do
+  let s ← runAll s [.bodyEnd t k]
+  match (s.thr t).pc with
+  | .releasing _ => let s ← runAll s [.resetOwner t, .unlock t]; pure (s, 3)
+  | _ => pure (s, 1)
+
+def applyObs (s : State) : Obs → Except String (State × Nat)
+  | .enter t a => do
+    let s ← runAll s [.look t a, .decide t]
+    let (s, n) ← match (s.thr t).pc with
+      | .wantLock _ => do let s ← runAll s [.lock t, .setOwner t]; pure (s, 4)
+      | _ => pure (s, 2)
+    let s ← runAll s [.read t a, .write t]
+    pure (s, n + 2)
+  | .exit t k levels => do
+    let mut s := s
+    let mut n := 0
+    for _ in [0:levels] do
+      let (s', m) ← exitOnce s t k
+      s := s'
+      n := n + m
+    pure (s, n)
+
+structure Replay where
+  ok : Bool
+  why : String
+  events : Nat
+  overlap : Bool
+  final : State
+
+def replay (tids : List Nat) (obs : List (String × Obs)) : Replay := Id.run do
+  let names := [0, 1, 2]
+  let mut s := init
+  let mut n := 0
+  let mut overlap := false
+  let mut pos := 0
+  let mut last : List (Nat × Nat) := []
+  for (txt, o) in obs do
+    match o with
+    | .enter t a =>
+      if tids.any fun x => x != t && !(s.thr x).stack.isEmpty then overlap := true
+      match last.lookup a with
+      | some u => if u != t then overlap := true
+      | none => pure ()
+      last := (a, t) :: last.filter (·.1 != a)
+    | _ => pure ()
+    match applyObs s o with
+    | .ok (s', m) =>
+      s := compact tids names s'
+      n := n + m
+    | .error e => return { ok := false, why := s!"{pos}:{txt}:{e}", events := n, overlap := overlap, final := s }
+    pos := pos + 1
+  return { ok := true, why := "", events := n, overlap := overlap, final := s }
+
+def quiescent (tids : List Nat) (s : State) : Bool :=
+  tids.all (fun t => (s.thr t).pc == .run && (s.thr t).stack.isEmpty) &&
+  [0, 1, 2].all (fun a => (s.mtx a).locked == false && (s.mtx a).owner == 0)
+
+def runCase (line : String) : String :=
+  match line.splitOn "\t" with
+  | [payload, trace] =>
+    match payload.splitOn " " with
+    | [mode, threads, iters, _seed, roles] =>
+      let threads := threads.toNat!
+      let iters := iters.toNat!
+      match (roles.splitOn "|").mapM roleCounts with
+      | none => "bad-program"
+      | some rcs =>
+        let (exs, total) := executions mode threads iters rcs.length
+        let sum : Cnt × Nat := exs.foldl (fun acc r =>
+          let rc := rcs.getD r ((0, 0, 0), 0)
+          (acc.1.plus rc.1, acc.2 + rc.2)) ((0, 0, 0), 0)
+        let cnt := sum.1
+        let occ : Cnt := (min cnt.1 1, min cnt.2.1 1, min cnt.2.2 1)
+        let res := s!"occ={occ.str} cnt={cnt.str} done={total}/{total} meet={sum.2 / 2}"
+        let toks := if trace = "-" || trace = "" then [] else trace.splitOn "."
+        match toks.mapM (fun t => (parseObs t).map fun o => (t, o)) with
+        | none => res ++ "\treplay=bad-trace"
+        | some obs =>
+          let tids := (obs.map fun p => obsThread p.2).eraseDups
+          let r := replay tids obs
+          let verdict :=
+            if !r.ok then r.why
+            else if !quiescent tids r.final then "end:not-quiescent"
+            else if ((r.final.mtx 0).ctr, (r.final.mtx 1).ctr, (r.final.mtx 2).ctr) != cnt then
+              s!"end:model-counters-{(r.final.mtx 0).ctr},{(r.final.mtx 1).ctr},{(r.final.mtx 2).ctr}"
+            else "ok"
+          res ++ s!"\treplay={verdict}\tev={r.events}" ++ (if r.overlap then "\tnt=1" else "")
+    | _ => "bad-payload"
+  | _ => "bad-line"
+
+def run (_args : List String) : IO Unit := lineLoop runCase
 end Ecal.Drv.C12
